@@ -169,6 +169,9 @@ def selftest():
 
 def _call(f, x, case, name, *args):
     buf = bytearray(x)
+    # in-place operations work on buffers other code holds views of: every other call is made while a
+    # memoryview export of the buffer is alive
+    export = memoryview(buf) if (len(x) + (x[0] if x else 0)) % 2 else None  # noqa: F841
     try:
         f(buf, *args)
     except Exception as ex:
@@ -177,6 +180,45 @@ def _call(f, x, case, name, *args):
 
 
 _perm_cache = {}
+
+
+
+def _threaded(funcs_inputs_expected, res, clause_case):
+    """Calls that work on DIFFERENT buffers must not disturb each other when they run on different
+    threads (the functions are documented as operating in place on the buffer they are given; nothing is
+    shared). 4 threads x many calls with a tiny switch interval; a correct library passes whatever the
+    interleaving, so this can never raise a false alarm - it only has a chance to expose shared scratch
+    state."""
+    import sys
+    import threading
+    old = sys.getswitchinterval()
+    bad = []
+
+    def work(k):
+        for rep_ in range(60):
+            for f, x, exp in funcs_inputs_expected[k::4]:
+                buf = bytearray(x)
+                try:
+                    f(buf)
+                except Exception as e:  # noqa
+                    bad.append((x.hex(), f"raised {type(e).__name__}"))
+                    return
+                if bytes(buf) != exp:
+                    bad.append((x.hex(), bytes(buf).hex()[:80]))
+                    return
+    sys.setswitchinterval(1e-6)
+    try:
+        ts = [threading.Thread(target=work, args=(k,)) for k in range(4)]
+        for t in ts:
+            t.start()
+        for t in ts:
+            t.join()
+    finally:
+        sys.setswitchinterval(old)
+    res.extra["threaded_calls"] = res.extra.get("threaded_calls", 0) + 60 * len(funcs_inputs_expected)
+    if bad:
+        raise Violation("independent_of_concurrent_calls_on_other_buffers", clause_case(bad[0][0]),
+                        "the single-threaded result", bad[0][1])
 
 
 def observed_perms(c, L, case):
@@ -543,6 +585,14 @@ def run_task(task):
     res = TaskResult()
     kind = task["kind"]
     try:
+        if kind == "threads":
+            xs = [bytes((i * 13 + k) % 256 for i in range(n)) for n in (2, 7, 64, 255, 1000, 5001) for k in (0, 3, 128)]
+            jobs = [(c.encrypt.interleave, x, m_interleave(x)) for x in xs] + \
+                   [(c.encrypt.deinterleave, x, m_deinterleave(x)) for x in xs] + \
+                   [(c.encrypt.flip_msb, x, m_flip(x)) for x in xs] + \
+                   [((lambda b: c.encrypt.swap_multiples(b, 3)), x, m_swap(x, 3)) for x in xs]
+            _threaded(jobs, res, lambda h: {"op": "weave", "hex": h, "threads": True})
+            return res
         if kind == "opt":
             from vlib import optrun
             xs = [bytes((i * 13 + k) % 256 for i in range(n)) for n in (0, 1, 2, 3, 6, 7, 64, 255) for k in (0, 3, 128)]
@@ -663,7 +713,7 @@ def plan(tier, seed):
     for m in PAT_MULTIPLES:
         tasks.append({"kind": "swap_pat", "m": m, "n_lo": PAT_MAXN - 1, "n_hi": PAT_MAXN - 1})
         tasks.append({"kind": "swap_pat", "m": m, "n_lo": 0, "n_hi": PAT_MAXN - 2})
-    tasks += [{"kind": "vectors"}, {"kind": "flip"}, {"kind": "long"}, {"kind": "opt"}]
+    tasks += [{"kind": "vectors"}, {"kind": "flip"}, {"kind": "long"}, {"kind": "opt"}, {"kind": "threads"}]
     return tasks
 
 
